@@ -210,6 +210,7 @@ struct ctx {
     int yield;          /* sprinkle sched_yield() (concurrent phase) */
     uint64_t yrng;      /* separate stream for the scheduling noise: never influences the script */
     const char *op;     /* current operation label (ro mode: read by the fault handler) */
+    unsigned long nops; /* library calls made */
     const asn_TYPE_descriptor_t *td;
 };
 static __thread struct ctx *CUR;
@@ -219,7 +220,7 @@ static NOINSTR void maybe_yield(struct ctx *c) {
     c->yrng = c->yrng * 6364136223846793005ull + 1442695040888963407ull;
     if(((c->yrng >> 33) & 3) == 0) sched_yield();
 }
-#define OP(c, name) do { (c)->op = (name); maybe_yield(c); } while(0)
+#define OP(c, name) do { (c)->op = (name); (c)->nops++; maybe_yield(c); } while(0)
 
 static const struct { enum asn_transfer_syntax enc, dec; const char *name; int per, oer, xer; } SYN[] = {
     {ATS_DER, ATS_BER, "der", 0, 0, 0},
@@ -534,6 +535,7 @@ static NOINSTR void one_round(struct ctx *c, int ti) {
         f = open_memstream(&mem, &memlen);
         lnum(L, "xfp", xer_fprint(f, td, st));
         fclose(f); free(mem);
+#ifndef ASN_DISABLE_PER_SUPPORT
         if(!HAS_NOPER[ti]) {
             out.n = 0;
             OP(c, "uper_encode");
@@ -552,6 +554,8 @@ static NOINSTR void one_round(struct ctx *c, int ti) {
             OP(c, "free");
             ASN_STRUCT_FREE(*td, st2);
         }
+#endif
+#ifndef ASN_DISABLE_OER_SUPPORT
         if(!HAS_NOOER[ti]) {
             out.n = 0;
             OP(c, "oer_encode");
@@ -563,6 +567,7 @@ static NOINSTR void one_round(struct ctx *c, int ti) {
             OP(c, "free");
             ASN_STRUCT_FREE(*td, st2);
         }
+#endif
         free(out.p);
         lstr(L, "}");
     }
@@ -736,14 +741,29 @@ static NOINSTR int main_thr(uint64_t seed, int nthr, int iters) {
             bad = 1;
         }
     }
-    printf("THR %s seed=%llu threads=%d iters=%d types=%d logbytes=%zu\n", bad ? "DIFF" : "ok", (unsigned long long)seed, nthr, iters, NTY, total);
+    {
+        unsigned long ops = 0;
+        for(i = 0; i < nthr; i++) ops += conc[i].c.nops;
+        printf("THR %s seed=%llu threads=%d iters=%d types=%d ops=%lu logbytes=%zu\n", bad ? "DIFF" : "ok", (unsigned long long)seed, nthr, iters, NTY, ops, total);
+    }
     return bad ? 3 : 0;
 }
 
 /* ================================================================== ro mode */
 #ifdef C19_CANARY
 extern void c19_canary_poke(void);
+extern int c19_canary_data, c19_canary_bss, c19_canary_same;
 #endif
+/* the detector's self-test objects are reported apart (CANARY lines) and do not count */
+static NOINSTR const char *canary_name(uintptr_t a) {
+#ifdef C19_CANARY
+    if(a >= (uintptr_t)&c19_canary_data && a < (uintptr_t)(&c19_canary_data + 1)) return "c19_canary_data";
+    if(a >= (uintptr_t)&c19_canary_bss && a < (uintptr_t)(&c19_canary_bss + 1)) return "c19_canary_bss";
+    if(a >= (uintptr_t)&c19_canary_same && a < (uintptr_t)(&c19_canary_same + 1)) return "c19_canary_same";
+#endif
+    (void)a;
+    return 0;
+}
 #define MAXSEG 8
 static struct seg { uintptr_t lo, hi; uint8_t *snap; } SEGS[MAXSEG];
 static int NSEG;
@@ -855,7 +875,7 @@ static NOINSTR int main_ro(uint64_t seed, int iters) {
     struct ctx c;
     struct sigaction sa;
     stack_t ss;
-    int i, it, ncrash = 0;
+    int i, it, ncrash = 0, nev_canary = 0;
     unsigned long ndiff = 0;
     memset(&c, 0, sizeof c);
     c.log.on = 0;
@@ -905,6 +925,7 @@ static NOINSTR int main_ro(uint64_t seed, int iters) {
         }
     }
     for(i = 0; i < NEV; i++) {
+        if(canary_name(EV[i].addr)) { printf("CANARY store %s\n", canary_name(EV[i].addr)); nev_canary++; continue; }
         printf("STORE pc=0x%lx addr=0x%lx count=%lu old=", (unsigned long)(EV[i].pc - LIB_BASE), (unsigned long)(EV[i].addr - LIB_BASE), EV[i].count);
         hex16(EV[i].oldb); printf(" new="); hex16(EV[i].newb);
         printf(" type=%s op=%s\n", EV[i].type, EV[i].op);
@@ -916,6 +937,7 @@ static NOINSTR int main_ro(uint64_t seed, int iters) {
             if(now[k] != SEGS[i].snap[k]) {
                 size_t e = k;
                 while(e < n && now[e] != SEGS[i].snap[e]) e++;
+                if(canary_name(SEGS[i].lo + k)) { printf("CANARY diff %s\n", canary_name(SEGS[i].lo + k)); k = e; continue; }
                 if(ndiff < 200) printf("DIFF off=0x%lx len=%zu\n", (unsigned long)(SEGS[i].lo + k - LIB_BASE), e - k);
                 ndiff++;
                 k = e;
@@ -924,10 +946,10 @@ static NOINSTR int main_ro(uint64_t seed, int iters) {
     }
     for(i = 0; i < FSET; i++)
         if(FSEEN[i]) printf("FUNC 0x%lx\n", (unsigned long)((uintptr_t)FSEEN[i] - LIB_BASE));
-    printf("RO %s seed=%llu iters=%d types=%d stores=%lu distinct=%d diffs=%lu crashes=%d\n", (NEV || ndiff) ? "WRITTEN" : "clean",
-           (unsigned long long)seed, iters, NTY, NSTORES, NEV, ndiff, ncrash);
+    printf("RO %s seed=%llu iters=%d types=%d ops=%lu stores=%lu distinct=%d diffs=%lu crashes=%d\n", (NEV - nev_canary || ndiff) ? "WRITTEN" : "clean",
+           (unsigned long long)seed, iters, NTY, c.nops, NSTORES - nev_canary, NEV - nev_canary, ndiff, ncrash);
     fflush(stdout);
-    _exit((NEV || ndiff) ? 4 : 0);   /* no destructors: the library image stays read-only */
+    _exit((NEV - nev_canary || ndiff) ? 4 : 0);   /* no destructors: the library image stays read-only */
 }
 
 NOINSTR int main(int ac, char **av) {
